@@ -78,4 +78,84 @@ theorem modeAfter_append (m : Mode) (a b : List Byte) : modeAfter m (a ++ b) = m
   | nil => simp [modeAfter]
   | cons x a ih => simp [modeAfter, ih]
 
+/-- copy_chars with the callback oracle: total under the decoder invariant; as long as no callback destructs the
+    user it computes exactly what the callback-free `copyChars` computes (state, stored text, replies) -/
+theorem copyCharsO_ok (o : Oracle) {d : Dec} (h : DecInv d) (n : Nat) (chunk : List Byte) :
+    ∃ r n' dead, copyCharsO o d n chunk = .ok (r, n', dead) ∧
+      (dead = false → ∃ r0, copyChars d chunk = .ok r0 ∧ r.d = r0.d ∧ r.out = r0.out ∧ r.tx = r0.tx) := by
+  induction chunk generalizing d n with
+  | nil => exact ⟨_, _, _, rfl, fun _ => ⟨_, rfl, rfl, rfl, rfl⟩⟩
+  | cons b rest ih =>
+    obtain ⟨r1, hr1, s1⟩ := ccByte_ok h b
+    simp only [copyCharsO, copyChars, hr1]
+    split
+    · obtain ⟨r2, n2, dead, h2, h3⟩ := ih s1.inv n
+      rw [h2]
+      refine ⟨_, _, _, rfl, fun hd => ?_⟩
+      obtain ⟨r0, e0, e1, e2, e3⟩ := h3 hd
+      rw [e0]
+      exact ⟨_, rfl, e1, by simp only [e2], by simp only [e3]⟩
+    · cases ho : o n with
+      | dest => exact ⟨_, _, _, rfl, fun hd => by cases hd⟩
+      | ok =>
+        obtain ⟨r2, n2, dead, h2, h3⟩ := ih s1.inv (n + 1)
+        simp only [h2]
+        refine ⟨_, _, _, rfl, fun hd => ?_⟩
+        obtain ⟨r0, e0, e1, e2, e3⟩ := h3 hd
+        rw [e0]
+        exact ⟨_, rfl, e1, by simp only [e2], by simp only [e3]⟩
+      | err =>
+        obtain ⟨r2, n2, dead, h2, h3⟩ := ih s1.inv (n + 1)
+        simp only [h2]
+        refine ⟨_, _, _, rfl, fun hd => ?_⟩
+        obtain ⟨r0, e0, e1, e2, e3⟩ := h3 hd
+        rw [e0]
+        exact ⟨_, rfl, e1, by simp only [e2], by simp only [e3]⟩
+
+/-- an oracle whose callbacks never destruct / disconnect the user (they may raise errors) -/
+def NoDest (o : Oracle) : Prop := ∀ k, o k ≠ .dest
+
+theorem copyCharsO_nodest {o : Oracle} (hn : NoDest o) (d : Dec) (n : Nat) (chunk : List Byte) :
+    ∀ r n' dead, copyCharsO o d n chunk = .ok (r, n', dead) → dead = false := by
+  induction chunk generalizing d n with
+  | nil => intro r n' dead h; simp only [copyCharsO] at h; injection h with h; injection h with _ h; injection h with _ h; exact h.symm
+  | cons b rest ih =>
+    intro r n' dead h
+    simp only [copyCharsO] at h
+    cases hb : ccByte d b with
+    | error e => rw [hb] at h; cases h
+    | ok r1 =>
+      rw [hb] at h
+      dsimp only at h
+      split at h
+      · cases h2 : copyCharsO o r1.d n rest with
+        | error e => rw [h2] at h; cases h
+        | ok res =>
+          obtain ⟨r2, n2, d2⟩ := res
+          rw [h2] at h
+          injection h with h; injection h with _ h; injection h with _ h
+          rw [← h]; exact ih _ _ _ _ _ h2
+      · cases ho : o n with
+        | dest => exact absurd ho (hn n)
+        | ok =>
+          rw [ho] at h
+          dsimp only at h
+          cases h2 : copyCharsO o r1.d (n + 1) rest with
+          | error e => rw [h2] at h; cases h
+          | ok res =>
+            obtain ⟨r2, n2, d2⟩ := res
+            rw [h2] at h
+            injection h with h; injection h with _ h; injection h with _ h
+            rw [← h]; exact ih _ _ _ _ _ h2
+        | err =>
+          rw [ho] at h
+          dsimp only at h
+          cases h2 : copyCharsO o r1.d (n + 1) rest with
+          | error e => rw [h2] at h; cases h
+          | ok res =>
+            obtain ⟨r2, n2, d2⟩ := res
+            rw [h2] at h
+            injection h with h; injection h with _ h; injection h with _ h
+            rw [← h]; exact ih _ _ _ _ _ h2
+
 end NV.C13
